@@ -198,8 +198,32 @@ def sym_paths(body, limit=4000, init_env=None) -> List[SymPath]:
                         env[sub.id] = op.fresh(sub.id)
                 sp.events.append(Event('other', n, None, None, st))
         sp.env = env
+        if _trivially_infeasible(sp):
+            continue
         out.append(sp)
     return out
+
+
+def _trivially_infeasible(sp) -> bool:
+    """Only comparisons between literal constants are decided (e.g. `None is not None` after substitution)."""
+    for node, truth in sp.conds:
+        if isinstance(node, ast.Compare) and len(node.ops) == 1 and isinstance(node.left, ast.Constant) \
+                and isinstance(node.comparators[0], ast.Constant):
+            a, b = node.left.value, node.comparators[0].value
+            op = node.ops[0]
+            if isinstance(op, ast.Is):
+                v = a is b
+            elif isinstance(op, ast.IsNot):
+                v = a is not b
+            elif isinstance(op, ast.Eq):
+                v = a == b
+            elif isinstance(op, ast.NotEq):
+                v = a != b
+            else:
+                continue
+            if v != truth:
+                return True
+    return False
 
 
 def _assigned_in(loop, name):
